@@ -105,10 +105,15 @@ _EVAL = None
 
 def _worker(block):
     acc = Acc()
+    t = time.time()
     try:
         _EVAL(block, acc)
     except BaseException:  # a crash of the harness is "broken", never a violation
         return ("broken", block, traceback.format_exc())
+    if os.environ.get("VERIF_PROFILE"):
+        dt = time.time() - t
+        if dt > float(os.environ["VERIF_PROFILE"]):
+            print(f"PROFILE {dt:.1f}s {block!r:.100}", flush=True)
     return ("ok", block, acc)
 
 
